@@ -430,7 +430,7 @@ def r6(run, db):
         run.saw(len(f.blocks), f)
         zt = [t for t in cmp_tests(f) if t["op"] == "Eq" and t["b"] == ("c", 0)]
         g = [c for c in f.calls() if c.callee and c.callee.endswith("::grow_pool")]
-        s = [c for c in f.calls() if c.callee and c.callee.endswith("::shrink_pool")]
+        s = [c for c in f.calls() if c.callee and c.callee.endswith("::shrink_pool")] or [c for c in f.calls() if c.callee and c.callee.endswith("::set_draining") and f.value_consts(c.args[1]) == ["true"]]
         run.check(len(zt) >= 1 and all(zt[0]["false_edge"] and f.edge_dominates(zt[0]["false_edge"], c.site) for c in g + s) and g and s, "resize|zero-ignored", "a zero request returns before any change", "a zero resize request is acted upon", f.where())
         mn = [c for c in f.calls() if c.matches(r"cmp::min$")]
         okm = False
